@@ -134,4 +134,24 @@ def commitmentRecommit [Add G] [Neg F] [SMul F G] (M B C : G) (c pm pb : F) : G 
 def elgamalRecommit [Add G] [Neg F] [SMul F G] (g M K c1 c2 : G) (c pm pb : F) : G × G :=
   ((-c) • c1 + pb • g, (-c) • c2 + pm • M + pb • K)
 
+/-! ### what the Fiat–Shamir challenge hashes for these sub-protocols
+
+The *statement* of each Σ-protocol (the prover-chosen group elements the proof is about) must be hashed
+together with the recomputed commitments, otherwise the challenge can be fixed before the statement is
+chosen. Items are (label, value) in the order of `append_message`. -/
+
+/-- `CommitmentVerifier::add_challenge_contribution` after the statement-id marker -/
+def commitmentItems {G : Type} (C R : G) : List (String × G) :=
+  [("commitment", C), ("blind commitment", R)]
+
+/-- `VerifiableEncryptionVerifier::add_challenge_contribution` (ElGamal part) after the marker -/
+def elgamalItems {G : Type} (c1 c2 r1 r2 : G) : List (String × G) :=
+  [("c1", c1), ("c2", c2), ("r1", r1), ("r2", r2)]
+
+/-- the blind-signing context's own transcript (`knox/{bbs,ps}/blind_signature_context.rs` and the
+holder side in `scheme.rs`); values are opaque byte strings; BBS also hashes the G1 generator -/
+def blindItems {B : Type} (bbs : Bool) (pk gen rc bc nonce : B) : List (String × B) :=
+  [("public key", pk)] ++ (if bbs then [("generator", gen)] else [])
+    ++ [("random commitment", rc), ("blind commitment", bc), ("nonce", nonce)]
+
 end AC.Sigma
